@@ -51,7 +51,7 @@ def gen_item_C19(rng, idx, tier):
     events = []
     n = int(np.prod(shape))
     for _ in range(rng.randint(2, 6)):
-        kind = rng.choice(['click', 'click', 'pick', 'lasso', 'slice'] if nd == 3 else ['click', 'click', 'pick', 'lasso'])
+        kind = rng.choice(['click', 'click', 'pick', 'lasso', 'multi', 'slice'] if nd == 3 else ['click', 'click', 'pick', 'lasso', 'multi'])
         slot = rng.choice([1, 2, 3])
         if kind == 'click':
             events.append(['click', slot, rng.randrange(shape[-1]), rng.randrange(shape[-2]), rng.choice([-0.4, 0.0, 0.3])])
@@ -59,6 +59,9 @@ def gen_item_C19(rng, idx, tier):
             events.append(['pick', slot, rng.randrange(1000), rng.randrange(1000)])
         elif kind == 'lasso':
             events.append(['lasso', slot, [rng.randrange(1000) for _ in range(rng.randint(0, 3))]])
+        elif kind == 'multi':
+            # what a lasso around several catalog rows hands to the hub (2-5 structures, no subtree)
+            events.append(['multi', slot, [rng.randrange(1000) for _ in range(rng.randint(2, 5))]])
         else:
             events.append(['slice', rng.randrange(shape[0])])
     return {'case': case, 'ops': ops, 'events': events, 'ncb': rng.randint(0, 2),
@@ -162,6 +165,12 @@ def eval_C19(item):
                     cb(verts)
                     model_events.append('lasso.%d.%s' % (slot, '+'.join(str(r) for r in rows) or '-'))
                     expect_first = None if not rows else row_ids[rows[0]]
+                elif ev[0] == 'multi':
+                    _, slot, rs = ev
+                    rows = sorted(set(r % len(row_ids) for r in rs))
+                    v.hub.select(slot, [d[row_ids[r]] for r in rows], subtree=False)
+                    model_events.append('lasso.%d.%s' % (slot, '+'.join(str(r) for r in rows)))
+                    expect_first = row_ids[rows[0]]
                 else:
                     v.update_slice(ev[1])
                     cur_slice = v.slice
@@ -252,7 +261,7 @@ def eval_C19(item):
                     res['pred'].append('contour mask of slot %d is not the mask of structure %d in the displayed slice' % (slot, expect_first))
             elif slot in v.selected_lines or v.selected_label[slot].get_text() != 'No structure selected':
                 res['pred'].append('clearing the selection left highlighted lines / label behind')
-        elif ev[0] == 'lasso':
+        elif ev[0] in ('lasso', 'multi'):
             want = [row_ids[r] for r in rows] or [None]
             if ids != want or v.hub.select_subtree[slot]:
                 res['pred'].append('lasso around rows %r selected %r (subtree=%s), expected %r without subtree' % (rows, ids, v.hub.select_subtree[slot], want))
